@@ -14,7 +14,7 @@
      complete s          every timer of s has run or was cancelled
    Only statements here; proofs are in Trie, PitWalk, PitInv, PitSteps, FibInv, Refine, Readable, Final, Refute. *)
 From Coq Require Import List NArith Bool Arith.
-From Engine Require Import Model Spec Refine Readable Final Refute.
+From Engine Require Import Model Spec Refine Readable Final Live Refute.
 Import ListNotations.
 
 (* The model's observations are accepted by the spec checker — the same (extracted) checker the runner evaluates on the
@@ -32,6 +32,15 @@ Theorem exactly_once : forall es,
      count_occ Nat.eq_dec (hist_cbs (hist init es)) (s_pid i) = 1%nat).
 Proof. exact m_exactly_once. Qed.
 Print Assumptions exactly_once.
+
+(* ... and that always happens: continue ANY history by moving the clock past every timer and letting all timers fire and
+   run ([run_down]); the result is complete, so every Interest expressed in the history is called back exactly once. *)
+Theorem every_expressed_interest_resolves : forall es,
+  complete (final init (es ++ run_down (final init es))) /\
+  forall i, In i (expressed (map sev_of es)) ->
+    count_occ Nat.eq_dec (hist_cbs (hist init (es ++ run_down (final init es)))) (s_pid i) = 1%nat.
+Proof. exact (fun es => conj (run_down_completes es) (every_interest_resolves es)). Qed.
+Print Assumptions every_expressed_interest_resolves.
 
 (* Result soundness: a callback of event k is for an Interest expressed before k, and
    - a Data result: event k is the arrival of exactly that Data, and it satisfies the Interest (same name, or longer only
